@@ -497,7 +497,10 @@ class LoopContract:
     invariant  list of clause strings
     modifies   {var name: type}   variables assigned in the body (havoced at the cut); type 'Real'|'Int'|'Bool'|callable
     """
-    def __init__(self, index="k", invariant=(), modifies=None, label=None, decreases=None, abort=False, ghost_pre=None):
+    def __init__(self, index="k", invariant=(), modifies=None, label=None, decreases=None, abort=False, ghost_pre=None,
+                 assumes=()):
+        # assumes: clause texts assumed (not proved) at loop entry: definitions of ghost functions and stated lemmas
+        self.assumes = list(assumes)
         # ghost_pre: {name: clause text} evaluated at loop entry (before the havoc), usable as names in the invariant
         self.ghost_pre = ghost_pre or {}
         # abort: the path ends when it reaches this loop without further obligations (the contract states which other
@@ -1780,6 +1783,9 @@ class Engine:
         self.cut_loop(st, env, lc, it)
 
     def eval_ghost_pre(self, lc, env):
+        for cl in lc.assumes:
+            lab, text = clause_parts(cl)
+            self.assume(to_z3(self.ev_clause(text, env)))
         for g, text in lc.ghost_pre.items():
             tree = ast.parse(text.strip(), mode="eval")
             self.spec_mode += 1
